@@ -737,8 +737,9 @@ func (g *genCtx) opInvoke(s int) {
 		f = &g.h.Funcs[fid] // genCtor may have grown the slice
 		f.ThenProvide, f.ThenScope = ctor.ID+1, ps
 		g.pendingThen = &thenReg{scope: ps, fn: ctor.ID}
-		if g.r.P(0.35) {
+		if (g.ft.FaultRate > 0 || g.ft.FaultInv > 0) && g.r.P(0.35) {
 			// ... and then fails: the registration stands, the Invoke is an error
+			// (classes that inject faults at all)
 			f.HasErr = true
 			g.h.Faults = append(g.h.Faults, Fault{Fn: f.ID, From: 0, To: -1, Kind: FaultErr})
 		}
